@@ -1601,24 +1601,19 @@ func c20InsertOnly(c *Ctx, p *Prog) {
 	nStmt := 0
 	for _, fn := range p.Funcs("storage/db") {
 		eachInstr(fn, func(_ *ssa.BasicBlock, in ssa.Instruction) {
-			call, ok := in.(*ssa.Call)
-			if !ok {
-				return
-			}
-			co := calleeObj(&call.Call)
-			if co == nil || co.Pkg() == nil || co.Pkg().Path() != "database/sql" || !(co.Name() == "Prepare" || co.Name() == "Exec" || co.Name() == "Query" || co.Name() == "QueryRow") {
-				return
-			}
-			args := callArgs(&call.Call)
-			if len(args) < 2 {
-				return
-			}
-			for _, s := range stringPieces(args[1]) {
-				nStmt++
+			for _, op := range in.Operands(nil) {
+				s, ok := constString(*op)
+				if !ok {
+					continue
+				}
 				up := strings.ToUpper(strings.Join(strings.Fields(s), " "))
+				if !(strings.Contains(up, "SELECT ") || strings.Contains(up, "INSERT ") || strings.Contains(up, "DELETE ") || strings.Contains(up, "UPDATE ") || strings.Contains(up, "DROP ") || strings.Contains(up, "TRUNCATE ")) {
+					continue
+				}
+				nStmt++
 				for _, w := range []string{"DELETE FROM UPLOADS", "DROP TABLE UPLOADS", "TRUNCATE TABLE UPLOADS", "TRUNCATE UPLOADS"} {
 					if strings.Contains(up, w) {
-						c.Bad(R, fmt.Sprintf("%s:removes-upload-rows", fnName(fn)), p.pos(call.Pos()), fmt.Sprintf("the statement %q removes rows from Uploads: the row of an aborted (or still empty) upload is what reserves its ID, and the next ID is computed from the rows that exist, so an ID already handed out is handed out again", truncate(s, 80)))
+						c.Bad(R, fmt.Sprintf("%s:removes-upload-rows", fnName(fn)), p.pos(in.Pos()), fmt.Sprintf("the statement %q removes rows from Uploads: the row of an aborted (or still empty) upload is what reserves its ID, and the next ID is computed from the rows that exist, so an ID already handed out is handed out again", truncate(s, 80)))
 					}
 				}
 			}
